@@ -2,5 +2,5 @@
 (* model-checking instance of HgUserFcn: 4 arguments (two scalars, two arrays), all application orders and call
    sequences of up to MaxOps steps *)
 EXTENDS HgUserFcn
-mcF == <<<<3>>, <<5>>, <<3, 5>>, <<3, 7>>>>
+mcF == <<<<3>>, <<5>>, <<3, 5>>, <<3, 7>>, <<-1>>, <<-3>>>>
 =============================================================================
